@@ -53,6 +53,9 @@ DIMS = {
     # vary with altitude (squeezing the fill gases) and one species that is exactly zero in part of the atmosphere
     'T': [['steps'], ['dec'], ['iso', 1000.0], ['aba']],
     'shape': ['vary', 'const'],
+    # how the collision pairs reach their source: constructor argument, appended one by one to the public list of a
+    # default-constructed source, or assigned to it (the sources of the several models of a case live side by side)
+    'ciavia': ['ctor', 'append', 'setter'],
     # correlated-k: the optical depths of different sources still add (only the molecules inside the absorption
     # source are combined per quadrature point), so everything except the per-molecule product is demanded
 }
@@ -78,9 +81,9 @@ def install(case):
     return tabs, cias
 
 
-def contrib_spec(c, N):
+def contrib_spec(c, N, ciavia='ctor'):
     if c == 'cia':
-        return ['cia', ['H2-H2', 'H2-He']]
+        return ['cia', ['H2-H2', 'H2-He'], ciavia]
     if c == 'clouds':
         return ['clouds', 3e4]
     if c == 'flat':
@@ -106,7 +109,7 @@ def spec_of(case, order, drop=None, full_order=None):
     if 'hm' in (full_order or order):
         gases += [['H', ['const', 1e-3]], ['e-', ['const', 1e-7]]]
     spec = {'kind': 'transmission', 'N': case['N'], 'T': case.get('T', ['dec']), 'gases': gases,
-            'contribs': [contrib_spec(c, case['N']) for c in order]}
+            'contribs': [contrib_spec(c, case['N'], case.get('ciavia', 'ctor')) for c in order]}
     if case.get('chem') == 'file-partial':
         # the same species from a tabulated composition that lists 60 % of the atmosphere only
         names = [m_ for m_ in MOLS if m_ in case['species'] and m_ != drop]
@@ -146,7 +149,7 @@ def case_fn(case):
     if case['hist'].startswith('late-'):
         m = fx.build_model(spec_of(case, order[:-1], full_order=order))
         m.model()
-        m.add_contribution(fx.make_contrib(contrib_spec(order[-1], case['N'])))
+        m.add_contribution(fx.make_contrib(contrib_spec(order[-1], case['N'], case.get('ciavia', 'ctor'))))
     else:
         m = fx.build_model(spec_of(case, order))
     clist0 = list(m.contribution_list)
@@ -366,6 +369,54 @@ def case_fn(case):
     return r
 
 
+# two sources of the same built-in kind with different settings in one model (a deep and a high haze, two decks):
+# add_contribution accepts them, so the model is the product of the models holding each one alone, in either order
+TWINS = {'lee': (['lee', {'lee_mie_mix_ratio': 1e-12, 'lee_mie_radius': 0.05, 'lee_mie_q': 40, 'lee_mie_topP': 1e0}],
+                 ['lee', {'lee_mie_mix_ratio': 3e-11, 'lee_mie_radius': 0.2, 'lee_mie_q': 25, 'lee_mie_bottomP': 1e1}]),
+         'flat': (['flat', {'flat_mix_ratio': 1e-31, 'flat_topP': 1e1, 'flat_bottomP': 1e4}],
+                  ['flat', {'flat_mix_ratio': 4e-31, 'flat_topP': 1e-1, 'flat_bottomP': 1e1}]),
+         'clouds': (['clouds', 3e4], ['clouds', 2e2]),
+         'cia': (['cia', ['H2-H2']], ['cia', ['H2-He']])}
+
+
+def twin_fn(case):
+    r = core.R(case)
+    kind, rev, others = case['kind'], case['rev'], case['others']
+    base = dict((k, v[0]) for k, v in DIMS.items() if k != 'order')
+    base.update(N=case['N'], mag=case['mag'])
+
+    def trans(contribs):
+        fx.reset_caches()
+        install(base)
+        sp = spec_of(base, [c_ for c_ in others])
+        sp['contribs'] = [contrib_spec(c_, base['N']) for c_ in others if c_ not in ('A', 'B')]
+        out = []
+        for c_ in contribs:
+            out.append(TWINS[kind][0] if c_ == 'A' else TWINS[kind][1] if c_ == 'B' else contrib_spec(c_, base['N']))
+        sp['contribs'] = out
+        m = fx.build_model(sp)
+        _, d, t, _ = m.model()
+        return np.array(d, float), np.array(t, float)
+
+    pair = ['B', 'A'] if rev else ['A', 'B']
+    full = list(others) + pair if case['first'] == 'others' else pair + list(others)
+    d_full, T_full = trans(full)
+    parts = [trans([c_])[1] for c_ in full]
+    prod = np.prod(parts, axis=0)
+    with np.errstate(all='ignore'):
+        tau_sum = np.sum([-np.log(p_) for p_ in parts], axis=0)
+    sig = '%s/%s' % (kind, '+'.join(others) if others else 'alone')
+    cmp_licensed(r, T_full, prod, tau_sum, 'product-over-contributions', 'twins/product/' + sig)
+    d_other, T_other = trans(list(reversed(full)))
+    sat = satur(tau_sum)
+    r.eq(T_full[~sat], T_other[~sat], 'order-independence', 'twins/order/' + sig, atol=1e-15)
+    differ = not np.allclose(parts[full.index('A')], parts[full.index('B')])
+    r.nontrivial = bool(differ and np.any((prod > math.exp(-10)) & (prod < 1 - 1e-9)))
+    r.observe(T_full)
+    return r
+
+
+
 def explore(ctx):
     import json
     dims = dict(DIMS)
@@ -391,3 +442,7 @@ def explore(ctx):
     ctx.bounds.update(orders=len(dims['order']), max_contributions=3 if quick else 4,
                       deviations='1 over all orders; %d over orders of <= 2 contributions' % (2 if quick else 3))
     ctx.run_cases('case_fn', out)
+    tw = [{'kind': k_, 'rev': rv, 'others': oth, 'first': fs, 'N': n_, 'mag': mg} for k_ in TWINS for rv in (False, True)
+          for oth in ([], ['abs'], ['abs', 'ray']) for fs in ('others', 'pair') for n_ in (3, 5)
+          for mg in ('tau1', 'thin') if not (fs == 'pair' and not oth)]
+    ctx.run_cases('twin_fn', tw, phase='two-of-a-kind')
